@@ -111,68 +111,85 @@ type c20BRCfg struct {
 	noTie           bool // probes only (ring degrees too large for the interpreted model)
 	keyLq           int  // LevelQ of the blind-rotation keys (-1: maximum)
 	lweCoeff        bool // LWE parameters with NTTFlag = false (samples in the coefficient domain)
+	brCoeff         bool // BLIND-ROTATION parameters with NTTFlag = false (the accumulator is NTT-domain regardless)
 }
 
 func c20BRConfigs(c *Ctx) (out []c20BRCfg) {
 	// rlwe.MinLogN = 4: the smallest LWE ring has degree 16
 	if !c.Thorough() {
 		return []c20BRCfg{
-			{4, 4, []int{27}, []int{40}, 7, []int{14}, 2, false, -1, false},
-			{5, 4, []int{27}, []int{40}, 7, []int{14}, 5, false, -1, false},
-			{4, 4, []int{30}, []int{41}, 0, []int{14}, 3, false, -1, false},
-			{4, 4, []int{27}, nil, 7, []int{14}, 2, false, -1, false}, // the shape of blindrot_test.go: no auxiliary modulus
-			{4, 4, []int{28, 30}, []int{40, 41}, 0, []int{13}, 1, false, -1, false},
+			{4, 4, []int{27}, []int{40}, 7, []int{14}, 2, false, -1, false, false},
+			{5, 4, []int{27}, []int{40}, 7, []int{14}, 5, false, -1, false, false},
+			{4, 4, []int{30}, []int{41}, 0, []int{14}, 3, false, -1, false, false},
+			{4, 4, []int{27}, nil, 7, []int{14}, 2, false, -1, false, false}, // the shape of blindrot_test.go: no auxiliary modulus
+			{4, 4, []int{28, 30}, []int{40, 41}, 0, []int{13}, 1, false, -1, false, false},
 			// large LWE moduli: q*2N_BR >= 2^64 (the modulus switch must not be done on 64-bit words), multi-limb
-			{4, 4, []int{27}, []int{40}, 7, []int{61}, 3, false, -1, false},
-			{4, 4, []int{27}, []int{40}, 7, []int{31, 32}, 2, false, -1, false},
-			{10, 4, []int{27}, []int{40}, 7, []int{55}, 2, true, -1, false},
+			{4, 4, []int{27}, []int{40}, 7, []int{61}, 3, false, -1, false, false},
+			{4, 4, []int{27}, []int{40}, 7, []int{31, 32}, 2, false, -1, false, false},
+			{10, 4, []int{27}, []int{40}, 7, []int{55}, 2, true, -1, false, false},
 			// non-ternary LWE secrets (discrete Gaussian), Ternary{P}, Ternary{H}
-			{4, 4, []int{27}, []int{40}, 7, []int{14}, -1, false, -1, false},
-			{4, 4, []int{27}, []int{40}, 7, []int{14}, -3, false, -1, true},
+			{4, 4, []int{27}, []int{40}, 7, []int{14}, -1, false, -1, false, false},
+			{4, 4, []int{27}, []int{40}, 7, []int{14}, -3, false, -1, true, false},
+			// BR parameters with NTTFlag = false, alone and combined with coefficient-domain LWE parameters
+			// (with the two lines below: all four (paramsBR.NTTFlag, paramsLWE.NTTFlag) combinations)
+			{4, 4, []int{27}, []int{40}, 7, []int{14}, 3, false, -1, false, true},
+			{4, 4, []int{27}, []int{40}, 7, []int{14}, 2, false, -1, true, true},
+			{4, 4, []int{28, 30}, []int{41}, 7, []int{14}, 2, false, 0, true, true},
 			// LWE parameters with NTTFlag = false; blind-rotation keys below the maximum level
-			{4, 4, []int{27}, []int{40}, 7, []int{14}, 3, false, -1, true},
-			{4, 4, []int{27, 30}, []int{41}, 7, []int{14}, 2, false, 0, false},
+			{4, 4, []int{27}, []int{40}, 7, []int{14}, 3, false, -1, true, false},
+			{4, 4, []int{27, 30}, []int{41}, 7, []int{14}, 2, false, 0, false, false},
 		}
 	}
 	for _, d := range []int{-1, -2, -3, -4, -5} {
-		out = append(out, c20BRCfg{4, 4, []int{27}, []int{40}, 7, []int{14}, d, false, -1, d%2 == 0})
+		out = append(out, c20BRCfg{4, 4, []int{27}, []int{40}, 7, []int{14}, d, false, -1, d%2 == 0, false})
 	}
-	out = append(out, c20BRCfg{5, 4, []int{30}, []int{41}, 0, []int{20}, -2, false, -1, false},
-		c20BRCfg{10, 4, []int{27}, []int{40}, 7, []int{55}, -1, true, -1, false})
+	// thorough: the four NTT-flag combinations over several shapes (no P, two limbs + keys below the maximum level,
+	// larger BR ring, multi-limb LWE, Gaussian secret)
+	for _, lc := range []bool{false, true} {
+		out = append(out,
+			c20BRCfg{4, 4, []int{27}, []int{40}, 7, []int{14}, 3, false, -1, lc, true},
+			c20BRCfg{4, 4, []int{27}, nil, 7, []int{14}, 2, false, -1, lc, true},
+			c20BRCfg{5, 4, []int{30}, []int{41}, 0, []int{14, 15}, 2, false, -1, lc, true},
+			c20BRCfg{4, 4, []int{28, 30}, []int{41}, 7, []int{14}, 2, false, 0, lc, true},
+			c20BRCfg{4, 4, []int{27}, []int{40}, 7, []int{14}, -1, false, -1, lc, true},
+			c20BRCfg{10, 4, []int{27}, []int{40}, 7, []int{55}, 2, true, -1, lc, true})
+	}
+	out = append(out, c20BRCfg{5, 4, []int{30}, []int{41}, 0, []int{20}, -2, false, -1, false, false},
+		c20BRCfg{10, 4, []int{27}, []int{40}, 7, []int{55}, -1, true, -1, false, false})
 	out = append(out,
-		c20BRCfg{4, 4, []int{27}, []int{40}, 7, []int{14}, 3, false, -1, true},
-		c20BRCfg{5, 4, []int{30}, []int{41}, 0, []int{14, 15}, 2, false, -1, true},
-		c20BRCfg{4, 4, []int{27}, nil, 7, []int{20}, 4, false, -1, true},
-		c20BRCfg{4, 4, []int{27, 30}, []int{41}, 7, []int{14}, 2, false, 0, false},
-		c20BRCfg{4, 4, []int{28, 30, 31}, []int{40, 41}, 0, []int{14}, 3, false, 1, true},
-		c20BRCfg{4, 4, []int{28, 30, 31}, []int{40, 41}, 0, []int{14}, 3, false, 0, false},
-		c20BRCfg{4, 4, []int{27, 33}, nil, 7, []int{14}, 2, false, 0, false},
+		c20BRCfg{4, 4, []int{27}, []int{40}, 7, []int{14}, 3, false, -1, true, false},
+		c20BRCfg{5, 4, []int{30}, []int{41}, 0, []int{14, 15}, 2, false, -1, true, false},
+		c20BRCfg{4, 4, []int{27}, nil, 7, []int{20}, 4, false, -1, true, false},
+		c20BRCfg{4, 4, []int{27, 30}, []int{41}, 7, []int{14}, 2, false, 0, false, false},
+		c20BRCfg{4, 4, []int{28, 30, 31}, []int{40, 41}, 0, []int{14}, 3, false, 1, true, false},
+		c20BRCfg{4, 4, []int{28, 30, 31}, []int{40, 41}, 0, []int{14}, 3, false, 0, false, false},
+		c20BRCfg{4, 4, []int{27, 33}, nil, 7, []int{14}, 2, false, 0, false, false},
 	)
 	for _, bl := range [][]int{{50}, {55}, {58}, {59}, {60}, {61}, {30, 31}, {45, 40}, {60, 61}, {20, 21, 22}} {
-		out = append(out, c20BRCfg{4, 4, []int{27}, []int{40}, 7, bl, 3, false, -1, false})
+		out = append(out, c20BRCfg{4, 4, []int{27}, []int{40}, 7, bl, 3, false, -1, false, false})
 	}
 	out = append(out,
-		c20BRCfg{10, 4, []int{27}, []int{40}, 7, []int{55}, 2, true, -1, false},
-		c20BRCfg{10, 5, []int{27}, []int{40}, 7, []int{53}, 4, true, -1, false},
-		c20BRCfg{9, 4, []int{27}, []int{40}, 7, []int{54, 55}, 3, true, -1, false},
+		c20BRCfg{10, 4, []int{27}, []int{40}, 7, []int{55}, 2, true, -1, false, false},
+		c20BRCfg{10, 5, []int{27}, []int{40}, 7, []int{53}, 4, true, -1, false, false},
+		c20BRCfg{9, 4, []int{27}, []int{40}, 7, []int{54, 55}, 3, true, -1, false, false},
 	)
 	for _, hw := range []int{0, 1, 2, 4, 8, 16} {
-		out = append(out, c20BRCfg{4, 4, []int{27}, []int{40}, 7, []int{14}, hw, false, -1, false})
+		out = append(out, c20BRCfg{4, 4, []int{27}, []int{40}, 7, []int{14}, hw, false, -1, false, false})
 	}
 	for _, hw := range []int{1, 3, 16} {
-		out = append(out, c20BRCfg{5, 4, []int{30}, []int{41}, 0, []int{14}, hw, false, -1, false})
+		out = append(out, c20BRCfg{5, 4, []int{30}, []int{41}, 0, []int{14}, hw, false, -1, false, false})
 	}
 	for _, w := range []int{4, 12, 16, 20} {
-		out = append(out, c20BRCfg{4, 4, []int{30}, []int{42}, w, []int{14}, 3, false, -1, false})
+		out = append(out, c20BRCfg{4, 4, []int{30}, []int{42}, w, []int{14}, 3, false, -1, false, w%2 == 1})
 	}
 	out = append(out,
-		c20BRCfg{4, 4, []int{27}, nil, 7, []int{14}, 2, false, -1, false},
-		c20BRCfg{4, 4, []int{27}, nil, 0, []int{14}, 2, false, -1, false},
-		c20BRCfg{4, 4, []int{30, 31}, nil, 12, []int{14}, 2, false, -1, false},
-		c20BRCfg{4, 4, []int{28, 30}, []int{40, 41}, 0, []int{13}, 2, false, -1, false},
-		c20BRCfg{5, 4, []int{27}, []int{40}, 7, []int{14, 15}, 4, false, -1, false},
-		c20BRCfg{5, 5, []int{29, 33}, []int{41}, 12, []int{16}, 6, false, -1, false},
-		c20BRCfg{6, 4, []int{27}, []int{40}, 7, []int{14}, 5, false, -1, false},
+		c20BRCfg{4, 4, []int{27}, nil, 7, []int{14}, 2, false, -1, false, false},
+		c20BRCfg{4, 4, []int{27}, nil, 0, []int{14}, 2, false, -1, false, false},
+		c20BRCfg{4, 4, []int{30, 31}, nil, 12, []int{14}, 2, false, -1, false, false},
+		c20BRCfg{4, 4, []int{28, 30}, []int{40, 41}, 0, []int{13}, 2, false, -1, false, false},
+		c20BRCfg{5, 4, []int{27}, []int{40}, 7, []int{14, 15}, 4, false, -1, false, false},
+		c20BRCfg{5, 5, []int{29, 33}, []int{41}, 12, []int{16}, 6, false, -1, false, false},
+		c20BRCfg{6, 4, []int{27}, []int{40}, 7, []int{14}, 5, false, -1, false, false},
 	)
 	return
 }
@@ -225,7 +242,7 @@ func c20GenBlindRot(c *Ctx) {
 		for _, b := range cfg.bitsLWE {
 			QL = append(QL, pg.next(b, uint64(2<<cfg.logNLWE), -1))
 		}
-		psBR, err := c20NewPS(cfg.logNBR, Q, P)
+		psBR, err := c20NewPSFlag(cfg.logNBR, Q, P, !cfg.brCoeff)
 		if err != nil {
 			c.Count("br:params-rejected")
 			continue
@@ -259,6 +276,7 @@ func c20GenBlindRot(c *Ctx) {
 		Qfull := Q
 		Q = Q[:lq+1] // the moduli of the key level: everything below (test polynomials, probes) lives there
 		_ = Qfull
+		c.Count(fmt.Sprintf("br:nttflags BR=%v LWE=%v", !cfg.brCoeff, !cfg.lweCoeff))
 		c.Count(fmt.Sprintf("br:cfg NBR=%d NLWE=%d nQ=%d nP=%d w=%d hw=%d", N, NL, len(Q), len(P), w, cfg.hw))
 
 		kgenL := rlwe.NewKeyGenerator(psL.params)
